@@ -43,3 +43,17 @@ def render(rng, toks):
             continue
         parts.append(rng.choice(SEPS))
     return "".join(parts)
+
+
+def render_glued(rng, toks):
+    """like render, but two adjacent '[' or two adjacent ']' are written without a separator, so that the lexer glues them
+    into its '[[' / ']]' tokens (v[idx[0]]): still bracket-balanced text, and a region that is skipped blindly must not care"""
+    parts = []
+    for i, t in enumerate(toks):
+        parts.append(t)
+        if t.endswith("\n"):
+            continue
+        if i + 1 < len(toks) and t == toks[i + 1] and t in ("[", "]"):
+            continue
+        parts.append(rng.choice(SEPS))
+    return "".join(parts)
